@@ -20,14 +20,19 @@ VIEWBOXES = [(0, 0, 100, 100), (0, 0, 25, 100), (0, 0, 400, 100), (0, 0, 150, 10
              (0, 0, 138, 128), (0, 0, 173, 128), (0, 0, 131, 128), (0, 0, 50, 128)]
 
 
-def svg_for(k, vb):
-    """A rect unique to source k (position and colour) inside the viewBox."""
+def svg_for(k, vb, badge=False):
+    """A rect unique to source k (position, size and colour) inside the viewBox.  badge: an additional small triangle of
+    one fixed size (a shape shared, by translation, with every other source that carries the badge)."""
     x = vb[0] + vb[2] * (0.1 + 0.15 * (k % 4))
     y = vb[1] + vb[3] * (0.15 + 0.2 * (k % 3))
-    w, h = vb[2] * 0.3, vb[3] * 0.25
+    w, h = vb[2] * (0.3 + 0.02 * (k % 5)), vb[3] * (0.25 + 0.015 * (k % 7))
     col = ["#D32F2F", "#1976D2", "#388E3C", "#F57C00"][k % 4]
+    extra = ""
+    if badge:
+        bx, by, s = vb[0] + vb[2] * (0.05 + 0.1 * (k % 6)), vb[1] + vb[3] * (0.72 + 0.03 * (k % 4)), min(vb[2], vb[3]) * 0.12
+        extra = f'<path d="M{bx:g},{by:g} L{bx + s:g},{by:g} L{bx:g},{by + s:g} Z" fill="#7B1FA2"/>'
     return (f'<svg xmlns="http://www.w3.org/2000/svg" viewBox="{vb[0]} {vb[1]} {vb[2]} {vb[3]}">'
-            f'<path d="M{x:g},{y:g} L{x + w:g},{y:g} L{x + w:g},{y + h:g} L{x:g},{y + h:g} Z" fill="{col}"/></svg>\n')
+            f'<path d="M{x:g},{y:g} L{x + w:g},{y:g} L{x + w:g},{y + h:g} L{x:g},{y + h:g} Z" fill="{col}"/>{extra}</svg>\n')
 
 
 def png_for(k, res, vb):
@@ -94,16 +99,18 @@ def is_blank(font, gname):
     return True
 
 
-def build_and_check(chk, sc, fmt, k, keep, replay_base):
+def build_and_check(chk, sc, fmt, k, keep, replay_base, share=None, same_vb=None):
+    """share: indices of the sources that carry the shared badge (then shape reuse is ON, so that glyphs sharing a shape
+    are grouped and - in OT-SVG formats - renumbered)."""
     seqs = [tuple(int(h, 16) for h in s) for s in sc["srcs"]]
     width = [1275, 0, 1000][k % 3]
     cfg = build.base_config(color_format=fmt, keep_glyph_names=keep, width=width, clip_to_viewbox=False,
-                            reuse_tolerance=-1.0, bitmap_resolution=48)  # reuse would scale rounding error between sources
+                            reuse_tolerance=-1.0 if share is None else 0.1, bitmap_resolution=48)
     srcs = []
     for i, cps in enumerate(seqs):
-        vb = VIEWBOXES[(k + i) % len(VIEWBOXES)]
+        vb = same_vb or VIEWBOXES[(k + i) % len(VIEWBOXES)]
         name = "emoji_u" + "_".join("%x" % c for c in cps) + ".svg"
-        srcs.append((build.Src(name, svg_for(i, vb), png_for(i, 48, vb)), vb))
+        srcs.append((build.Src(name, svg_for(i, vb, badge=share is not None and i in share), png_for(i, 48, vb)), vb))
     replay = dict(replay_base, format=fmt, keep_glyph_names=keep, width=width, files=[s.filename for s, _ in srcs])
     raw = fmt.startswith("untouched")
     try:
@@ -148,7 +155,8 @@ def build_and_check(chk, sc, fmt, k, keep, replay_base):
             want_adv = max(width, round(em * pw / 48))
         else:
             exp, adv, A = oracle_svg.expected_layers(src.svg_text if raw else build.to_picosvg(src.svg_text).tostring(), oc)
-            eb = exp[0].shape.bounds
+            ebs = [L.shape.bounds for L in exp]
+            eb = (min(b[0] for b in ebs), min(b[1] for b in ebs), max(b[2] for b in ebs), max(b[3] for b in ebs))
             if drawn is None or any(abs(drawn[j] - eb[j]) > 3.0 for j in range(4)):
                 chk.violation(f"{fmt}: glyph {g} reached from {['%x' % c for c in cps]} draws {drawn}, its source's artwork is at {eb}", replay)
             want_adv = adv
@@ -215,6 +223,23 @@ def run(chk):
         chk.traces_validated += 1
         if k < 2:
             chk.sample({"scenario": sc["srcs"], "names": sc["names"], "format": fmt})
+    # sharing family: some sources share a shape (reuse on), some do not, in every input order: in OT-SVG formats the
+    # glyphs of a sharing group are moved together and renumbered under the existing cmap / GSUB
+    pool = ["1f600", "1f601", "1f602", "263a", "1f468", "1f469"]
+    for k in range(26 if quick else 400):
+        rr = common.rng("C04", "share", k)
+        n = rr.randrange(3, 6)
+        cps = rr.sample(pool, n)
+        seqs = [[c] for c in cps[: n - 1]] + [[cps[0], "200d", cps[1]]]
+        if k % 3 == 0:
+            seqs.append([cps[1], "200d", cps[0], "fe0f"])
+        rr.shuffle(seqs)
+        share = set(rr.sample(range(len(seqs)), rr.randrange(2, len(seqs))))
+        fmt = ["picosvg", "picosvgz", "picosvg", "glyf_colr_1", "untouchedsvg", "glyf_colr_0", "picosvg"][k % 7]
+        sc = {"srcs": seqs, "phase": "done", "names": []}
+        build_and_check(chk, sc, fmt, k, k % 2 == 0, {"scenario": seqs, "share": sorted(share)}, share=share, same_vb=(0, 0, 100, 100))
+        chk.case(key=("share", k), nontrivial=True)
+        chk.traces_validated += 1
     chk.assumptions += ["artwork identity is decided by a source-unique rectangle (bounds within 3 units) / PNG bytes"]
 
 
